@@ -90,6 +90,17 @@ def Resumes (c : Cfg) : Prop :=
       recover c (afterLoad c (lossyImageAt {} (acts.foldl (Run.step c mk) (resumedRun nl bs bs0)).ops i j k)) =
         Index.replay [] es
 
+/-- Clause 4 (power loss leaves zeros): the file size can reach the disk while the data does not —
+    the tail then reads as zeros.  Behind a file of whole blocks such a tail of any length changes
+    nothing for the load, and a fresh chronicler that writes and syncs afterwards is readable. -/
+def ZeroTail (c : Cfg) : Prop :=
+  (∀ (nl : Nat) (bs : List Block), (∀ b ∈ bs, b.WF) → ∀ n, loadFile c.r (fileCells nl bs ++ zeros n) = .ok (entsOf bs)) ∧
+  (∀ (mk : Mk), MkOk mk → ∀ (nl bsz : Nat) (bs : List Block), (∀ b ∈ bs, b.WF) → ∀ (n : Nat) (items : List (Op × Nat)), items ≠ [] →
+      recover c ((({ main := some (fileCells nl bs ++ zeros n), temp := none } : Disk).applyAll
+          (cWrite c mk { main := some (fileCells nl bs ++ zeros n), temp := none } { w := none, nlName := nl, bs := bsz } items).2).applyAll
+          (cSync c mk (cWrite c mk { main := some (fileCells nl bs ++ zeros n), temp := none } { w := none, nlName := nl, bs := bsz } items).1).2) =
+        Index.replay (Index.replay [] (entsOf bs)) (items.map (·.1)))
+
 /-- The full-strength statement.  (Histories are chronicler sessions from an empty directory, or
     resumed on a recovered file, without compaction; a crash during the recovery itself — the
     truncate of the repaired open — is covered by the metadata rule of the crash model only.) -/
@@ -98,6 +109,7 @@ structure Holds (c : Cfg) : Prop where
   maximal : Maximal c
   appendable : Appendable c
   resumes : Resumes c
+  zeroTail : ZeroTail c
 
 /-! ### The repaired reader: every crash image recovers -/
 
@@ -439,10 +451,88 @@ theorem second_crash_recovers (c : Cfg) (hc : GoodR c.r) (mk : Mk) (hmk : MkOk m
       rw [← hr, entsOf_append, ← e]; exact List.prefix_append _ _
     · rw [recover_eq_loadEntries c _ g hg, hload]
 
+/-- the repaired open on `clean file ++ zeros`: the zeros are cut, the writer sits at the clean end -/
+theorem open_zero_tail (c : Cfg) (ht : c.truncatesTornTail = true) (nl bsz : Nat) (bs : List Block) (hwf : ∀ b ∈ bs, b.WF)
+    (n : Nat) :
+    ∃ w o, openWriter c { main := some (fileCells nl bs ++ zeros n), temp := none } .main nl bsz = some (w, o) ∧
+      WInv (({ main := some (fileCells nl bs ++ zeros n), temp := none } : Disk).applyAll o) w (fileCells nl bs) ∧
+      w.path = .main ∧ w.buf = [] := by
+  have hh : headerOf (fileCells nl bs ++ zeros n) = some nl := by
+    simp only [fileCells, List.append_assoc]; exact headerOf_file nl _
+  have hv := validLen_zero_tail nl bs hwf n
+  have htb : tailHoldsBlock ((fileCells nl bs ++ zeros n).drop (fileCells nl bs).length) = false := by
+    rw [List.drop_left']
+    · unfold tailHoldsBlock
+      rw [List.any_eq_false]
+      intro i hi
+      by_cases h1 : i ≥ 1
+      · have : ((zeros n).drop i).head? = some Cell.zero ∨ ((zeros n).drop i).head? = none := by
+          rw [List.head?_drop]
+          by_cases hin : i < n
+          · left; simp [zeros, List.getElem?_replicate, hin]
+          · right; apply List.getElem?_eq_none; simp [zeros]; omega
+        rcases this with h | h <;> simp [h]
+      · simp [h1]
+    · rfl
+  refine ⟨{ path := .main, pos := (fileCells nl bs).length, nl := nl, buf := [], bufSize := 0, bs := bsz },
+    (if (fileCells nl bs).length < (fileCells nl bs ++ zeros n).length then [.truncate .main (fileCells nl bs).length] else []),
+    ?_, ?_, rfl, rfl⟩
+  · have htb' : tailHoldsBlock (zeros n) = false := by
+      have e : (fileCells nl bs ++ zeros n).drop (fileCells nl bs).length = zeros n := List.drop_left' rfl
+      rw [e] at htb; exact htb
+    simp [openWriter, Disk.get, hh, ht, hv, htb']
+  · refine ⟨?_, rfl, fileCells_hdr nl bs⟩
+    split
+    · simp only [Disk.applyAll_cons, Disk.applyAll_nil, Disk.apply, Disk.get, Disk.set]
+      rw [List.take_left']
+      · simp
+      · rfl
+    · rename_i hge
+      have hn : n = 0 := by simp [zeros] at hge; omega
+      subst hn
+      simp [Disk.applyAll_nil, Disk.get, zeros]
+
+/-- **Repaired reader and open: a zero-filled tail is harmless.** -/
+theorem zero_tail_of_repaired (c : Cfg) (hc : GoodR c.r) (hz : c.r.zeroTailIsEOF = true) (ht : c.truncatesTornTail = true) :
+    ZeroTail c := by
+  refine ⟨fun nl bs hwf n => loadFile_zero_tail c.r hc.1 hz nl bs hwf n, ?_⟩
+  intro mk hmk nl bsz bs hwf n items hne
+  obtain ⟨w, o, hopen, hwinv, hp, hbuf⟩ := open_zero_tail c ht nl bsz bs hwf n
+  have hemp : items.isEmpty = false := by cases items <;> simp_all
+  obtain ⟨a, ha, pa⟩ := addManyW_spec mk hmk items _ w (fileCells nl bs) hwinv (by rw [hbuf]; exact maxEnts_pos)
+  obtain ⟨nbs, hn, hnwf, hget⟩ := syncW_spec c mk hmk _ _ _ pa.inv (Nat.le_of_lt pa.cnt)
+  have hpath : (addManyW mk w items).1.path = .main := by rw [pa.path, hp]
+  rw [hpath] at hget
+  simp only [cWrite, hemp, ensureW, hopen, cSync, Bool.false_eq_true, if_false]
+  rw [Disk.applyAll_append]
+  have hfin : (((({ main := some (fileCells nl bs ++ zeros n), temp := none } : Disk).applyAll o).applyAll (addManyW mk w items).2).applyAll
+      (syncW c mk (addManyW mk w items).1).2).main = some (fileCells nl (bs ++ a ++ nbs)) := by
+    simp only [Disk.get] at hget
+    rw [hget]; simp [fileCells, render_append, List.append_assoc]
+  have hall : ∀ b ∈ bs ++ a ++ nbs, b.WF := by
+    intro b hb
+    rcases List.mem_append.mp hb with hb | hb
+    · rcases List.mem_append.mp hb with hb | hb
+      · exact hwf b hb
+      · exact pa.wf b hb
+    · exact hnwf b hb
+  simp only [recover, mainIndex, hfin, loadFile_clean c.r nl _ hall]
+  rw [entsOf_append, entsOf_append, List.append_assoc, hn, ha, hbuf, List.nil_append, Index.replay_append]
+  rfl
+
+/-- **The zero-filled tail wipes the swamp** for a reader that takes the zero header for a block:
+    a synced file followed by 16 zero bytes does not load. -/
+theorem zero_tail_wipes_swamp (c : Cfg) (hz : c.r.zeroTailIsEOF = false) : ¬ ZeroTail c := by
+  intro h
+  have h1 := h.1 0 [] (by simp) 16
+  rw [loadFile_zero_tail_error c.r hz 0 [] (by simp) 16 (Nat.le_refl _)] at h1
+  cases h1
+
 /-- C02 holds for the repaired reader and the repaired open. -/
-theorem holds_of_repaired (c : Cfg) (hc : GoodR c.r) (ht : c.truncatesTornTail = true) : Holds c :=
+theorem holds_of_repaired (c : Cfg) (hc : GoodR c.r) (ht : c.truncatesTornTail = true) (hz : c.r.zeroTailIsEOF = true) : Holds c :=
   ⟨recover_total_prefix c hc, recover_maximal c hc, append_after_recovery c hc ht,
-   fun mk hmk nl bs bs0 hwf acts i j k hcp hi => second_crash_recovers c hc mk hmk nl bs bs0 hwf acts i j k hcp hi⟩
+   fun mk hmk nl bs bs0 hwf acts i j k hcp hi => second_crash_recovers c hc mk hmk nl bs bs0 hwf acts i j k hcp hi,
+   zero_tail_of_repaired c hc hz ht⟩
 
 /-! ### The code as it is: closed witnesses -/
 
@@ -686,7 +776,7 @@ theorem C02_partial (c : RCfg) (h : c.shortHeaderIsEOF = true) (nl : Nat) (bs : 
   simp [this]
 
 /-- Non-vacuity: the hypotheses of the theorems are met by a real session. -/
-example : MkOk mk2 ∧ (runActs ⟨⟨true, true, false⟩, true, true, true, true, true, true, true⟩ mk2 0 100
+example : MkOk mk2 ∧ (runActs ⟨⟨true, true, false, true⟩, true, true, true, true, true, true, true, true, true⟩ mk2 0 100
     [.w [(Op.put 1 1, 200)], .sync]).ops.length = 7 := by
   refine ⟨mk2_ok, ?_⟩
   simp [runActs, Run.step, cWrite, cSync, ensureW, openWriter, Disk.get, addManyW, addW, flushW, syncW, createOps, mk2, mkP,
@@ -714,6 +804,13 @@ structure Facts where
   handlerSyncsAfterWrite : Tri
   /-- chroniclerV2.Sync forwards to FileWriter.Sync -/
   chronSyncForwards : Tri
+  /-- readNextBlock: a zero size field, and an unparseable block that runs out in zeros with only zeros
+      behind it, are the end of the data -/
+  zeroTailIsEOF : Tri
+  /-- openExistingFile stops its walk at a zero size field, checks the last block it accepted and restarts a zero-header file -/
+  openCutsZeroTail : Tri
+  /-- openExistingFile does not cut when an intact block lies behind the cut point -/
+  openSparesMidFileDamage : Tri
   /-- `WriteBuffer.Add` reports full at `math.MaxUint16` entries: a fault-free writer never hands
       `CompressEntries` more than the 16-bit count field holds (the bound of `MkOk`) -/
   flushesAtCountBound : Tri
@@ -727,10 +824,11 @@ structure Facts where
   deriving Repr
 
 def cfgOf (f : Facts) : Cfg :=
-  { r := ⟨f.shortHeaderIsEOF.isYes, f.tornDataIsEOF.isYes, false⟩,
+  { r := ⟨f.shortHeaderIsEOF.isYes, f.tornDataIsEOF.isYes, false, f.zeroTailIsEOF.isYes⟩,
     syncFsyncs := f.syncFsyncs.isYes, closeFsyncs := f.closeFsyncs.isYes,
     truncatesTornTail := f.truncatesTornTail.isYes,
-    loadCleansTemp := true, rmTempLocked := true, rmTempFromIndex := true, rmTempCompactor := true }
+    loadCleansTemp := true, rmTempLocked := true, rmTempFromIndex := true, rmTempCompactor := true,
+    restartsZeroHeader := f.openCutsZeroTail.isYes, sparesMidFileDamage := f.openSparesMidFileDamage.isYes }
 
 /-- the model describes this code: canonical flush order, append-mode open, Load aborts on error,
     the periodic tick really fsyncs (otherwise nothing is ever durable and the statement is void) -/
@@ -738,15 +836,19 @@ def modelApplies (f : Facts) : Bool :=
   f.flushOrderCanonical.isYes && f.opensExistingForAppend.isYes && f.loadAbortsOnError.isYes &&
   f.syncFsyncs.isYes && f.closeFsyncs.isYes && f.handlerSyncsAfterWrite.isYes && f.chronSyncForwards.isYes &&
   f.shortHeaderIsEOF.isYes && f.tornDataIsEOF != .unknown && f.truncatesTornTail != .unknown &&
-  f.flushesAtCountBound.isYes && f.validatesCrc.isYes && f.validatesULen.isYes && f.parseConsumesAll.isYes
+  f.flushesAtCountBound.isYes && f.validatesCrc.isYes && f.validatesULen.isYes && f.parseConsumesAll.isYes &&
+  f.zeroTailIsEOF != .unknown && f.openCutsZeroTail != .unknown && f.openSparesMidFileDamage != .unknown
 
 def findings (f : Facts) : List String :=
   (if f.tornDataIsEOF.isYes then [] else ["C02-torn-payload-load-error"]) ++
-  (if f.truncatesTornTail.isYes then [] else ["C02-append-after-torn-tail-strands", "C02-torn-create-bricks-swamp"])
+  (if f.truncatesTornTail.isYes then [] else ["C02-append-after-torn-tail-strands", "C02-torn-create-bricks-swamp"]) ++
+  (if f.zeroTailIsEOF.isYes then [] else ["C02-zero-filled-tail-wipes-swamp"])
 
 def classify (f : Facts) : Verdict :=
   if !modelApplies f then .undetermined "a storage fact was not recognised or the durability barrier is missing (the model does not describe this code)"
-  else if findings f = [] then .holds
+  else if findings f = [] then
+    (if f.openCutsZeroTail.isYes && f.openSparesMidFileDamage.isYes then .holds
+     else .undetermined "the open walks through a zero-filled tail or cuts a file that is damaged in the middle: no theorem for this open")
   else .violated (findings f)
 
 /-- the fragment proved for every reader that treats a short header as EOF -/
@@ -761,25 +863,31 @@ theorem classify_sound (f : Facts) : (classify f).Sound (Holds (cfgOf f)) (Parti
   · rename_i hm
     simp only [Bool.not_eq_true', Bool.not_eq_false] at hm
     simp only [modelApplies, Bool.and_eq_true] at hm
-    obtain ⟨⟨⟨⟨⟨⟨⟨⟨⟨⟨⟨⟨⟨_, _⟩, _⟩, hsf⟩, _⟩, _⟩, _⟩, hsh⟩, _⟩, _⟩, _⟩, _⟩, _⟩, _⟩ := hm
+    obtain ⟨⟨⟨⟨⟨⟨⟨⟨⟨⟨⟨⟨⟨⟨⟨⟨_, _⟩, _⟩, hsf⟩, _⟩, _⟩, _⟩, hsh⟩, _⟩, _⟩, _⟩, _⟩, _⟩, _⟩, _⟩, _⟩, _⟩ := hm
     split
     · rename_i hfnd
       simp only [findings, List.append_eq_nil_iff] at hfnd
-      obtain ⟨h1, h2⟩ := hfnd
+      obtain ⟨⟨h1, h2⟩, h3⟩ := hfnd
       have ht : f.tornDataIsEOF.isYes = true := by revert h1; cases f.tornDataIsEOF.isYes <;> simp
       have htr : f.truncatesTornTail.isYes = true := by revert h2; cases f.truncatesTornTail.isYes <;> simp
-      exact holds_of_repaired (cfgOf f) ⟨hsh, ht⟩ htr
+      have hz : f.zeroTailIsEOF.isYes = true := by revert h3; cases f.zeroTailIsEOF.isYes <;> simp
+      split
+      · exact holds_of_repaired (cfgOf f) ⟨hsh, ht⟩ htr hz
+      · trivial
     · rename_i hfnd
       refine ⟨?_, fun h nl bs hwf b hb r hr => C02_partial (cfgOf f).r h nl bs hwf b hb r hr⟩
       intro hh
       apply hfnd
       simp only [findings, List.append_eq_nil_iff]
-      constructor
+      refine ⟨⟨?_, ?_⟩, ?_⟩
       · cases ht : f.tornDataIsEOF.isYes
         · exact absurd hh.recovers (not_recovers_of_torn_error (cfgOf f) ht hsf)
         · simp
       · cases htr : f.truncatesTornTail.isYes
         · exact absurd hh.appendable (append_after_torn_tail_strands (cfgOf f) htr)
+        · simp
+      · cases hz : f.zeroTailIsEOF.isYes
+        · exact absurd hh.zeroTail (zero_tail_wipes_swamp (cfgOf f) hz)
         · simp
 
 end Hv.C02
